@@ -18,6 +18,20 @@ RT = "pysnark.runtime"
 PK = "pysnark.pack"
 
 
+def zero_asserted(n):
+    """the expression a call forces to zero, or None:  D.assert_zero()  |  add_constraint[_unsafe](0, x, D) / (x, 0, D)
+    |  a.assert_eq(b)  (D = a - b)"""
+    if isinstance(n.func, ast.Attribute) and n.func.attr == "assert_zero":
+        return n.func.value
+    if isinstance(n.func, ast.Attribute) and n.func.attr == "assert_eq" and len(n.args) >= 1:
+        return ast.BinOp(left=n.func.value, op=ast.Sub(), right=n.args[0])
+    if norm(n.func).split(".")[-1] in ("add_constraint", "add_constraint_unsafe") and len(n.args) >= 3 \
+            and not norm(n.func).startswith("backend.") and any(
+            norm(a) in ("LinComb.ZERO", "0", "runtime.LinComb.ZERO") for a in n.args[:2]):
+        return n.args[2]
+    return None
+
+
 def rule_decomposition(repo, rule):
     tb = repo.fn(RT, "LinComb.to_bits")
     fb = repo.fn(RT, "LinComb.from_bits")
@@ -83,17 +97,6 @@ def rule_decomposition(repo, rule):
     bitsvar = norm(built[0]._parent.targets[0]) if isinstance(getattr(built[0], "_parent", None), ast.Assign) else None
     from ..flatten import resolve_locals as _rl16
 
-    def zero_asserted(n):
-        """the expression a call forces to zero, or None:  D.assert_zero()  |  add_constraint(0, x, D) / add_constraint(x, 0, D)
-        |  a.assert_eq(b)  (D = a - b)"""
-        if isinstance(n.func, ast.Attribute) and n.func.attr == "assert_zero":
-            return n.func.value
-        if isinstance(n.func, ast.Attribute) and n.func.attr == "assert_eq" and len(n.args) >= 1:
-            return ast.BinOp(left=n.func.value, op=ast.Sub(), right=n.args[0])
-        if norm(n.func).split(".")[-1] == "add_constraint" and len(n.args) >= 3 and not norm(n.func).startswith("backend.") and any(
-                norm(a) in ("LinComb.ZERO", "0", "runtime.LinComb.ZERO") for a in n.args[:2]):
-            return n.args[2]
-        return None
     for n in ast.walk(tb.node):
         if isinstance(n, ast.Call):
             e = zero_asserted(n)
@@ -370,8 +373,25 @@ def rule_packers(repo, rule, rule4):
     # every value returned is computed from such a slice (secret and plain arm alike)
     from ..flatten import resolve_locals as _rl
     urets = [r for r in ast.walk(unf.node) if isinstance(r, ast.Return) and r.value is not None]
-    slice_txt = {norm(sl) for sl in slices}
+    slice_txt = {norm(sl) for sl in slices} | {norm(_rl(unf.node, sl)) for sl in slices}
     unsliced = [r for r in urets if not any(t in norm(_rl(unf.node, r.value)) for t in slice_txt)]
+    # `if <bitlen() is 0>: return 0` - the empty slice recomposes to 0: evaluated over the small moduli
+    from .c03 import _ceval, _NoEval
+    for r in list(unsliced):
+        g = getattr(r, "_parent", None)
+        if isinstance(r.value, ast.Constant) and r.value.value == 0 and isinstance(g, ast.If) and r in g.body and not g.orelse and b0:
+            try:
+                ok0 = True
+                for mod in range(1, 1100):
+                    envv = {"self.mod": mod}
+                    envv["self.bitlen()"] = _ceval(b0[0], envv)
+                    if bool(_ceval(_rl(unf.node, g.test), envv)) and envv["self.bitlen()"] != 0:
+                        ok0 = False
+                        break
+                if ok0:
+                    unsliced.remove(r)
+            except _NoEval:
+                pass
     if not slices or not urets:
         rule.violation(unf.loc(), unf.fq, "%d slices, %d returns" % (len(slices), len(urets)), "unpack does not read a slice of the "
                        "bit list", "PackIntMod/unpack/arms")
@@ -406,8 +426,9 @@ def rule_packers(repo, rule, rule4):
     if not good:
         rule4.violation(pkf.loc(), pkf.fq, "; ".join(norm(t.test) for t in tests), "plain values outside [0, mod) are not rejected on "
                         "pack", "PackIntMod/pack/range")
-    c = [x for x in ast.walk(unf.node) if isinstance(x, ast.Call) and isinstance(x.func, ast.Attribute) and x.func.attr == "assert_lt"]
-    if c and norm(c[0].args[0]) == "self.mod":
+    from .c03 import modulus_checks
+    c = [x for x, _nm in modulus_checks(unf)]
+    if c:
         rule4.ok(unf.loc(c[0]), unf.fq, norm(c[0]), "secret values range-checked on unpack")
     else:
         rule4.violation(unf.loc(), unf.fq, "no assert_lt(self.mod)", "secret values are not range-checked on unpack", "PackIntMod/unpack/range")
